@@ -19,7 +19,9 @@ Definition enc_shared (s : shared) : list Z :=
   [rc s; b2z (patched s); enc_entry (tbl s); b2z (created s)].
 
 (* ------------------------------------------------------------ sequential histories *)
-(* events: 0 operation ended (last field: 1 = it raised)   1 __enter__ returned
+(* events: 0 operation ended (two more fields: 1 = it raised; 1 = afterwards a plain
+           copy.deepcopy([module]) raises TypeError, as in a fresh interpreter)
+           1 __enter__ returned
            2 __exit__ returned    3 exception out of __new__/__enter__
            4 a module was copied through the table   5 exception out of __exit__ *)
 Definition in_exit (th : thread) : bool :=
@@ -36,8 +38,8 @@ Definition seq_event (th : thread) (l : label) (s' : state) : list (list Z) :=
                 match t_ctl th' with Run => [4 :: e] | _ => [] end
             | _, _ => []
             end
-  | LTryEnd => [0 :: e ++ [0]]
-  | LCaught => [0 :: e ++ [1]]
+  | LTryEnd => [0 :: e ++ [0; b2z (entry_eqb (tbl (sh s')) NoEntry)]]
+  | LCaught => [0 :: e ++ [1; b2z (entry_eqb (tbl (sh s')) NoEntry)]]
   | _ => []
   end.
 
@@ -58,19 +60,22 @@ Fixpoint run_seq (fuel : nat) (s : state) : list (list Z) :=
 (* the property, on the implementation's events alone: nesting depth is counted
    from the events; whenever the depth is 0 the table must hold its initial
    content, whenever it is positive an entry must be present; an operation may
-   raise only if the harness made it raise *)
+   raise only if the harness made it raise; when an operation has ended the
+   counter is 0 again and copying a module outside the library fails exactly
+   when nothing was registered initially *)
 Fixpoint seq_oracle (init : entry) (planned : list bool) (depth : Z) (seen : list (list Z)) : bool :=
   match seen with
   | [] => (depth =? 0) && match planned with [] => true | _ => false end
-  | (k :: _ :: _ :: e :: _ :: rest) :: r =>
+  | (k :: rcv :: _ :: e :: _ :: rest) :: r =>
       let depth' := if k =? 1 then depth + 1
                     else if (k =? 2) || (k =? 5) then depth - 1 else depth in
       let st := if 0 <? depth' then Inside else Outside in
       snap_okb init [st] (dec_entry e) &&
       (if k =? 0
-       then (depth' =? 0) &&
+       then (depth' =? 0) && (rcv =? 0) &&
             match rest, planned with
-            | [raised], p :: _ => implb (raised =? 1) p
+            | [raised; plainfail], p :: _ =>
+                implb (raised =? 1) p && Bool.eqb (plainfail =? 1) (entry_eqb init NoEntry)
             | _, _ => false
             end
        else true) &&
@@ -167,6 +172,7 @@ Record conc_case : Set := mkconc {
   c_planned : list bool;          (* per thread: the harness makes it raise *)
   c_sched : list (nat * bool);    (* (thread, observed blocked) per scheduler step *)
   c_completed : bool;             (* every thread ran to completion *)
+  c_plainfail : bool;             (* afterwards copy.deepcopy([module]) raises TypeError *)
   c_seen : list (list Z);         (* after every step: shared projection, threads *)
   c_out : list (list Z) }.        (* per thread: [raised; result has the modules by identity] *)
 
@@ -194,9 +200,10 @@ Fixpoint outs_ok (planned : list bool) (outs : list (list Z)) : bool :=
   | _, _ => false
   end.
 
+(* at the end: every thread finished and outside, the counter back at 0 *)
 Definition all_finished (v : list Z) : bool :=
   match v with
-  | _ :: _ :: _ :: _ :: cs => forallb (fun c => c =? 31 * 4) cs
+  | rcv :: _ :: _ :: _ :: cs => (rcv =? 0) && forallb (fun c => c =? 31 * 4) cs
   | _ => false
   end.
 
@@ -204,6 +211,7 @@ Definition conc_oracle (c : conc_case) : bool :=
   c_completed c &&
   forallb (snap_of (init_entry (c_user c))) (c_seen c) &&
   all_finished (last (c_seen c) []) &&
+  Bool.eqb (c_plainfail c) (entry_eqb (init_entry (c_user c)) NoEntry) &&
   outs_ok (c_planned c) (c_out c).
 
 Definition check_conc (c : conc_case) : nat :=
